@@ -759,6 +759,28 @@ pub fn run_c05(out: &mut Out, rng: &mut Rng, thorough: bool, only: Option<&str>)
                 }
             }
         }
+        // (b4'') VALID texts whose header bytes take the values 0, 1, 0x10, 0x80, 0xff pairwise (all others zero):
+        // values that a packed decoder may use as an "invalid" sentinel must still be accepted
+        if !STRICT {
+            let hdr = v.ck_len() + 2;
+            let vals = [0u8, 1, 0x10, 0x80, 0xff];
+            for i in 0..hdr {
+                for j in (i + 1)..hdr {
+                    for &x in vals.iter() {
+                        for &y in vals.iter() {
+                            let mut a = image(v, rng);
+                            for q in 0..hdr {
+                                a[q] = 0;
+                            }
+                            a[i] = x;
+                            a[j] = y;
+                            let t = hex_of(v, &a, (i + j) % 2 == 0);
+                            emit_parse(out, v, "bytes", "None", &t);
+                        }
+                    }
+                }
+            }
+        }
         // (b5) TWO header fields each holding one non-hexadecimal character (every pair of fields, both positions)
         {
             let canon = hex_of(v, &image(v, rng), true);
@@ -1004,7 +1026,26 @@ pub fn run_c14(out: &mut Out, rng: &mut Rng, thorough: bool, only: Option<&str>)
                 if l > 70_000 && !(v.name() == "Normal" || thorough) {
                     continue;
                 }
-                let pre = rng.bytes(l);
+                let mut pre = rng.bytes(l);
+                // meaningful prior content: the SAME value already there in lower case / with another prefix
+                // style / one digit off, or another value's text (a store is a write, whatever was there)
+                if vi == 0 && l >= n && l <= n + 8 && form != "bytes" {
+                    let same = hex_of(v, &img, form == "hexp");
+                    let prior: Vec<u8> = match (l - n) % 4 {
+                        0 => same.to_ascii_lowercase().iter().map(|&c| if c == b't' { b'T' } else { c }).collect(),
+                        1 => recase(&same, rng, 2),
+                        2 => hex_of(v, &image(v, rng), form == "hexp"),
+                        _ => {
+                            let mut t = same.to_ascii_lowercase();
+                            t[0] = if form == "hexp" { b'T' } else { t[0] };
+                            let k = t.len() - 1;
+                            t[k] = if t[k] == b'0' { b'1' } else { b'0' };
+                            t
+                        }
+                    };
+                    let m = prior.len().min(l);
+                    pre[..m].copy_from_slice(&prior[..m]);
+                }
                 // the destination starts at a varying offset of its backing storage (alignment 1..8)
                 let shift = l % 8;
                 let mut backing = vec![0u8; l + 8];
@@ -1202,6 +1243,15 @@ pub fn run_c13(out: &mut Out, rng: &mut Rng, thorough: bool, only: Option<&str>)
                 for r in &forms {
                     emit_cmpstr(out, v, l, r, v.name() == "Normal" && rng.chance(1, 3));
                 }
+            }
+        }
+        // the special values (all-zero / sparse / coinciding header fields, uniform ...) against a random value
+        if !STRICT {
+            let other = hex_of(v, &image(v, rng), true);
+            for sp in special_images(v, rng) {
+                let t = hex_text_unchecked(v, &sp, rng.chance(1, 2));
+                emit_cmpstr(out, v, &t, &other, false);
+                emit_cmpstr(out, v, &other, &t, false);
             }
         }
         // Unicode look-alikes / case-mapping specials on the right, on the left and on both sides
